@@ -277,9 +277,13 @@ func genShared(c *simkit.Choices) *shared {
 		s.types = append(s.types, te)
 		s.vals = append(s.vals, te.Gen(c))
 	}
-	for i, n := 0, 1+c.N(2); i < n; i++ {
+	for i, n := 0, 2+c.N(2); i < n; i++ {
 		ln := []int{255, 256, 257, 300, 1024, 1025}[c.N(6)]
-		switch c.N(8) {
+		kind := c.N(8)
+		if i == 0 {
+			kind = c.N(2) // (always one of the float kinds: bulk paths of the binary encoders)
+		}
+		switch kind {
 		case 0:
 			a := make([]float64, ln)
 			for j := range a {
@@ -391,7 +395,7 @@ func genOp(c *simkit.Choices, sh *shared, taskIdx int) *op {
 			j := c.N(len(sh.foldVals))
 			val, tname = sh.foldVals[j], sh.foldTypes[j].Name
 		}
-		if c.N(8) == 0 {
+		if c.N(5) == 0 {
 			j := c.N(len(sh.big))
 			val, tname = sh.big[j], fmt.Sprintf("shared %T of %d", sh.big[j], reflect.ValueOf(sh.big[j]).Len())
 		}
